@@ -1748,7 +1748,7 @@ impl Prop for C13 {
     fn default_cases(&self, tier: Tier) -> usize {
         match tier {
             Tier::Quick => 9,
-            Tier::Thorough => 220,
+            Tier::Thorough => 300,
         }
     }
     fn gen_case(&self, rng: &mut Rng, tier: Tier, index: usize) -> Vec<String> {
